@@ -568,6 +568,28 @@ func orderName(o string) string {
 // dispatcherCases maps the constant case values of the switch statements of a
 // dispatcher to the kind allocated in that clause.
 func dispatcherCases(w *World, fi *FuncInfo) map[int64]string {
+	out := dispatcherCasesIn(w, fi)
+	if len(out) > 0 {
+		return out
+	}
+	// the selection may live in a helper the decoder calls (one level): newBody(type) with a switch on its parameter
+	info := fi.Pkg.TypesInfo
+	ast.Inspect(fi.Decl.Body, func(n ast.Node) bool {
+		c, ok := n.(*ast.CallExpr)
+		if !ok || len(out) > 0 {
+			return true
+		}
+		if hf := w.FuncOf(w.calleeOf(info, c)); hf != nil && hf != fi && hf.Decl.Body != nil && hf.Decl.Name.Name != "UnmarshalBinary" {
+			if hc := dispatcherCasesIn(w, hf); len(hc) > 0 {
+				out = hc
+			}
+		}
+		return true
+	})
+	return out
+}
+
+func dispatcherCasesIn(w *World, fi *FuncInfo) map[int64]string {
 	out := map[int64]string{}
 	info := fi.Pkg.TypesInfo
 	ast.Inspect(fi.Decl.Body, func(n ast.Node) bool {
@@ -583,8 +605,20 @@ func dispatcherCases(w *World, fi *FuncInfo) map[int64]string {
 					if _, isSw := m.(*ast.SwitchStmt); isSw {
 						return false // nested dispatch (error / experimenter error): handled by its own switch
 					}
+					if kind != "" {
+						return true
+					}
+					// &T{…}
+					if u, ok := m.(*ast.UnaryExpr); ok && u.Op == token.AND {
+						if cl, ok := unparen(u.X).(*ast.CompositeLit); ok {
+							if kk := w.KindOfType(info.TypeOf(cl)); kk != nil {
+								kind = kk.Name
+							}
+						}
+						return true
+					}
 					call, ok := m.(*ast.CallExpr)
-					if !ok || kind != "" {
+					if !ok {
 						return true
 					}
 					if id, ok := call.Fun.(*ast.Ident); ok && id.Name == "new" && len(call.Args) == 1 {
